@@ -1,6 +1,6 @@
 (* C12 -- Block Attributes apply once, to the next block only (partial).  Property theorems only. *)
 From Rimu Require Import Base Regex RegexParse Str Types Tables Guards State Inline Block
-  Frame FrameBlock FrameInst OptionsLemmas MiscLemmas MoreLemmas.
+  Frame FrameBlock FrameInst OptionsLemmas MiscLemmas MoreLemmas AttrInject.
 
 (* injection into a non-empty tag consumes every pending class, id, css and attribute *)
 Theorem C12_consume : forall tag s r s',
@@ -49,3 +49,20 @@ Example C12_ex :
   | Ok (html, _) => str_eqb html ($"<p class=""cls"" id=""i"">one</p>" ++ [10] ++ $"<p>two</p>")
   | _ => false end = true.
 Proof. vm_compute. reflexivity. Qed.
+
+(* THE PENDING CLASS GOES INTO THE FIRST TAG, ONCE: for every opening tag of the generated block and list tables (p, div, blockquote,
+   pre, ul, ol, dl, li, dt, dd ...) and every non-empty class text, injection with only a class pending returns the tag with
+   class="..." inserted right after the tag name (name_len is where the generated tag-name pattern stops) and clears every
+   pending attribute -- so the following block gets none *)
+Theorem C12_class_into_first_tag : forall T cls s, In T open_tags -> cls_ok cls ->
+  p_classes s = cls -> p_id s = [] -> p_css s = [] -> p_attrs s = [] ->
+  injectHtmlAttributes T true s =
+  Ok (takeN (name_len T) T ++ [32] ++ ($"class=""" ++ cls ++ [34]) ++ dropN (name_len T) T, clear_pending s).
+Proof. exact class_injected. Qed.
+Print Assumptions C12_class_into_first_tag.
+
+Example C12_ex_tags :
+  map (fun T => takeN (name_len T) T ++ $" class=""x""" ++ dropN (name_len T) T) [$"<p>"; $"<pre><code>"; $"<blockquote><p>"; $"<ul>"] =
+  [$"<p class=""x"">"; $"<pre class=""x""><code>"; $"<blockquote class=""x""><p>"; $"<ul class=""x"">"] /\
+  forallb (fun T => existsb (str_eqb T) open_tags) [$"<p>"; $"<pre><code>"; $"<blockquote><p>"; $"<ul>"] = true.
+Proof. split; vm_compute; reflexivity. Qed.
